@@ -23,6 +23,7 @@ def run(chk):
     chk.attempt(r12e, chk)
     chk.attempt(r12f, chk)
     chk.attempt(r12g, chk)
+    chk.attempt(r12h, chk)
 
 
 def _has_call(x):
@@ -629,3 +630,54 @@ def r12g(chk, rid='R12.g'):
     same = {k: (getattr(a.args.get(k), 'mediaText', a.args.get(k)), getattr(b.args.get(k), 'mediaText', b.args.get(k))) for k in set(a.args) | set(b.args)}
     diff = {k: v for k, v in same.items() if v[0] != v[1]}
     chk.ob(rid, PARSE, 'CSSParser.parseString', 'the second call of a parser object constructs its sheet like the first', not diff, f'{diff}')
+
+
+def r12h(chk, rid='R12.h'):
+    chk.rule(rid, 'a parse leaves the global error mode as it found it, whatever happened before, decided by evaluation: CSSParser.__init__ and then parseString / parseStyle are evaluated on their syntax trees against a model log object through histories in which the global mode is changed between construction and the parses - to the parser\'s own parse-time mode and away from it, for a raising and a non-raising parser: after every parse that returns normally the global mode is the one that was in force when the parse began, and during the parse it is the parser\'s own')
+    chk.assume('R12.h: sheet, declaration block and tokenizer are models; the mode in force during the parse is observed when the sheet model is constructed')
+    from sa.absint import Evaluator, Obj, Raised, Record
+
+    m = chk.repo.mod(PARSE)
+    init = m.get('CSSParser.__init__')
+    bad = []
+    n = 0
+    for own in (False, True):
+        for method, args in (('parseString', {'cssText': 'a{}'}), ('parseStyle', {'cssText': 'a:b'})):
+            log = Record(raiseExceptions=False, setLog=lambda l: None, setLevel=lambda l: None)
+            during = []
+
+            class ML(Record):
+                def __init__(self, *a, **k):
+                    Record.__init__(self)
+
+            def newsheet(**k):
+                during.append(log.raiseExceptions)
+                sh = Obj(args=k)
+                sh._setFetcher = lambda f: None
+                sh._setCssTextWithEncodingOverride = lambda toks, encodingOverride=None, encoding=None: None
+                return sh
+
+            def newstyle(*a, **k):
+                during.append(log.raiseExceptions)
+                return Obj()
+
+            cssm = Record(log=log, css=Record(CSSStyleSheet=newsheet, CSSStyleDeclaration=newstyle), stylesheets=Record(MediaList=ML), codec=Record(detectencoding_str=lambda b, final=False: ('utf-8', False)))
+            intr = {'cssutils': cssm, 'css': cssm.css, 'tokenize2': Record(Tokenizer=lambda **k: Obj(tokenize=lambda text_, fullsheet=False: iter([('IDENT', text_, 1, 1)]))),
+                    'codecs.getdecoder': lambda name: (lambda b, encoding=None: ('decoded', len(b))), 'codec': cssm.codec}
+            for start_global in (False, True):
+                log.raiseExceptions = start_global
+                me = Obj()
+                r = Evaluator(init, intrinsics=intr, module=m, cls='CSSParser', model_types=(ML,)).run(self=me, raiseExceptions=own)
+                if isinstance(r, Raised):
+                    raise AnalysisError(f'CSSParser.__init__: {r!r}')
+                for before in (True, False, own, not own, own):
+                    log.raiseExceptions = before
+                    del during[:]
+                    r = Evaluator(m.get(f'CSSParser.{method}'), intrinsics=intr, module=m, cls='CSSParser', model_types=(ML,)).run(self=me, **args)
+                    n += 1
+                    if isinstance(r, Raised):
+                        raise AnalysisError(f'CSSParser.{method}: {r!r}')
+                    if log.raiseExceptions is not before or during != [own]:
+                        bad.append(f'{method} of a parser with raiseExceptions={own} (built under global mode {start_global}) run under global mode {before}: mode {during} during the parse, {log.raiseExceptions} afterwards')
+    chk.extra['error_mode_histories'] = n
+    chk.ob(rid, PARSE, 'CSSParser', f'all {n} parses restore the global error mode they started under and run in the mode of the parser', not bad, '; '.join(bad[:2]) + ': a parse that returns normally flips cssutils.log.raiseExceptions for the rest of the process')
